@@ -49,6 +49,39 @@ func (c *ctx) fecCase(maxSize, maxCount, maxRed int) {
 	}
 	red := c.rnd.Intn(maxRed + 1)
 	data := c.bytesN(size * count)
+	// data shapes an optimisation could treat specially: zero runs (also at the end), repeated fragments, text-like tails
+	// (ASCII, valid multi-byte UTF-8 sequences, possibly straddling a fragment boundary), constant blocks
+	switch c.rnd.Intn(6) {
+	case 0:
+		z := c.rnd.Intn(len(data) + 1)
+		for i := len(data) - z; i < len(data); i++ {
+			data[i] = 0
+		}
+	case 1:
+		seqs := [][]byte{{0xc3, 0xa9}, {0xe2, 0x82, 0xac}, {0xf0, 0x9f, 0x98, 0x80}, {'a', 'b'}, {0xd0, 0x96}}
+		pos := len(data)
+		for k := 0; k < 1+c.rnd.Intn(4) && pos > 0; k++ {
+			q := seqs[c.rnd.Intn(len(seqs))]
+			if len(q) > pos {
+				break
+			}
+			pos -= len(q)
+			copy(data[pos:], q)
+		}
+		if c.rnd.Intn(2) == 0 { // zero padding after the text
+			z := c.rnd.Intn(size + 1)
+			if z < len(data) {
+				copy(data, data[z:])
+				for i := len(data) - z; i < len(data); i++ {
+					data[i] = 0
+				}
+			}
+		}
+	case 2:
+		for i := range data {
+			data[i] = data[i%size] // every fragment identical
+		}
+	}
 	ev := fecEvent(data, size, red)
 	// random erasure pattern for the specification's decoder (small blocks only)
 	if count <= 24 && ev["err"] == "" {
@@ -87,6 +120,8 @@ func drvFec(c *ctx) error {
 				c.fecCase(64, 300, 100)
 			case 1, 2:
 				c.fecCase(8, 24, 12)
+			case 3, 4: // very small fragments: every byte boundary is a fragment boundary
+				c.fecCase(3, 40, 12)
 			default:
 				c.fecCase(16, 64, 20)
 			}
